@@ -52,7 +52,7 @@ DERIVED = {
 
 
 # element text the parser reads with Element.text: an empty element and an absent value are the same document
-EMPTY_IS_ABSENT = {("Limit", "value_raw")}
+EMPTY_IS_ABSENT = {("Limit", "value_raw"), ("ExternalDoc", "description")}
 
 
 # ---------------------------------------------------------------------------------------
@@ -155,6 +155,77 @@ def kitchen_sink_docs(c1: str = "DLC1", c2: str = "DLC2") -> List[str]:
         og.service("BV.DC.mux", "muxed", "BV.RQ.mux"),
         og.single_ecu_job("BV.JOB", "job1"),
     ]
+    # ---- element kinds beyond the emitter's helpers, written out
+    sdgs = ('<SDGS><SDG SI="vendor"><SDG-CAPTION ID="BV.SDGC"><SHORT-NAME>cap</SHORT-NAME><LONG-NAME>caption</LONG-NAME></SDG-CAPTION>'
+            '<SD SI="key" TI="ti.key">value &amp; more</SD><SDG SI="nested"><SD>inner</SD></SDG></SDG></SDGS>')
+    admin = ('<ADMIN-DATA><LANGUAGE>en-US</LANGUAGE><DOC-REVISIONS><DOC-REVISION><REVISION-LABEL>1.0</REVISION-LABEL>'
+             '<STATE>draft</STATE><DATE>2024-01-01T00:00:00</DATE><TOOL>odxgen</TOOL><MODIFICATIONS><MODIFICATION>'
+             '<CHANGE>created</CHANGE><REASON>test</REASON></MODIFICATION></MODIFICATIONS></DOC-REVISION></DOC-REVISIONS></ADMIN-DATA>')
+    audience = ('<AUDIENCE IS-SUPPLIER="true" IS-DEVELOPMENT="false" IS-MANUFACTURING="true" IS-AFTERSALES="false" IS-AFTERMARKET="true">'
+                '<ENABLED-AUDIENCE-REFS><ENABLED-AUDIENCE-REF ID-REF="BV.AA"/></ENABLED-AUDIENCE-REFS></AUDIENCE>')
+    bv.requests.append(og.request("BV.RQ.rich", "RQ_rich", [og.p_const8("sid", 0x3E), og.p_const8("sub", 0x80)]))
+    bv.pos_responses.append(og.response("POS-RESPONSE", "BV.PR.rich", "PR_rich", [og.p_const8("sid", 0x7E), og.p_value("v", "D.u8")]))
+    bv.diag_comms.append(
+        '<DIAG-SERVICE ID="BV.DC.rich" OID="oid.rich" SEMANTIC="FUNCTION" DIAGNOSTIC-CLASS="STARTCOMM" IS-MANDATORY="true" '
+        'IS-EXECUTABLE="false" IS-FINAL="true" IS-CYCLIC="true" IS-MULTIPLE="false" ADDRESSING="FUNCTIONAL-OR-PHYSICAL" '
+        'TRANSMISSION-MODE="SEND-AND-RECEIVE"><SHORT-NAME>rich</SHORT-NAME><LONG-NAME>rich service</LONG-NAME>'
+        '<DESC TI="ti.desc"><p>a <b>rich</b> service</p><EXTERNAL-DOCS><EXTERNAL-DOC HREF="http://x/y?a=1&amp;b=2">the doc</EXTERNAL-DOC>'
+        '</EXTERNAL-DOCS></DESC>' + admin + sdgs +
+        '<FUNCT-CLASS-REFS><FUNCT-CLASS-REF ID-REF="BV.FC"/></FUNCT-CLASS-REFS>' + audience +
+        '<PROTOCOL-SNREFS><PROTOCOL-SNREF SHORT-NAME="L1"/></PROTOCOL-SNREFS>'
+        '<RELATED-DIAG-COMM-REFS><RELATED-DIAG-COMM-REF ID-REF="BV.DC.read"><RELATION-TYPE>precondition</RELATION-TYPE>'
+        '</RELATED-DIAG-COMM-REF></RELATED-DIAG-COMM-REFS>'
+        '<PRE-CONDITION-STATE-REFS><PRE-CONDITION-STATE-REF ID-REF="BV.SC.s1"/></PRE-CONDITION-STATE-REFS>'
+        '<STATE-TRANSITION-REFS><STATE-TRANSITION-REF ID-REF="BV.SC.t1"/></STATE-TRANSITION-REFS>'
+        '<REQUEST-REF ID-REF="BV.RQ.rich"/><POS-RESPONSE-REFS><POS-RESPONSE-REF ID-REF="BV.PR.rich"/></POS-RESPONSE-REFS>'
+        '<POS-RESPONSE-SUPPRESSABLE><BIT-MASK>80</BIT-MASK><CODED-CONST-SNREF SHORT-NAME="sub"/></POS-RESPONSE-SUPPRESSABLE>'
+        '</DIAG-SERVICE>')
+    bv.diag_comms.append(
+        '<SINGLE-ECU-JOB ID="BV.JOB2" SEMANTIC="JOB"><SHORT-NAME>job2</SHORT-NAME>' + sdgs.replace("BV.SDGC", "BV.SDGC2") + audience +
+        '<PROG-CODES><PROG-CODE><CODE-FILE>job.py</CODE-FILE><ENCRYPTION>none</ENCRYPTION><SYNTAX>PYTHON3</SYNTAX>'
+        '<REVISION>2</REVISION><ENTRYPOINT>main</ENTRYPOINT><LIBRARY-REFS><LIBRARY-REF ID-REF="BV.LIB"/></LIBRARY-REFS>'
+        '</PROG-CODE></PROG-CODES>'
+        '<INPUT-PARAMS><INPUT-PARAM OID="oid.in" SEMANTIC="IN"><SHORT-NAME>in1</SHORT-NAME><LONG-NAME>input</LONG-NAME>'
+        '<PHYSICAL-DEFAULT-VALUE>5</PHYSICAL-DEFAULT-VALUE><DOP-BASE-REF ID-REF="D.u8"/></INPUT-PARAM></INPUT-PARAMS>'
+        '<OUTPUT-PARAMS><OUTPUT-PARAM ID="BV.JOB2.out" OID="oid.out" SEMANTIC="OUT"><SHORT-NAME>out1</SHORT-NAME>'
+        '<DOP-BASE-REF ID-REF="D.lin"/></OUTPUT-PARAM></OUTPUT-PARAMS>'
+        '<NEG-OUTPUT-PARAMS><NEG-OUTPUT-PARAM><SHORT-NAME>neg1</SHORT-NAME><LONG-NAME>negative</LONG-NAME>'
+        '<DOP-BASE-REF ID-REF="D.u8"/></NEG-OUTPUT-PARAM></NEG-OUTPUT-PARAMS></SINGLE-ECU-JOB>')
+    for (nm, cls, sid) in (("clr_dyn", "CLEAR-DYN-DEF-MESSAGE", 0x2C), ("read_dyn", "READ-DYN-DEFINED-MESSAGE", 0x2A), ("def_dyn", "DYN-DEF-MESSAGE", 0x2D)):
+        bv.requests.append(og.request(f"BV.RQ.{nm}", f"RQ_{nm}", [og.p_const8("sid", sid)]))
+        bv.diag_comms.append(og.service(f"BV.DC.{nm}", nm, f"BV.RQ.{nm}").replace("<DIAG-SERVICE ", f'<DIAG-SERVICE DIAGNOSTIC-CLASS="{cls}" ', 1))
+    bv.libraries = ['<LIBRARY ID="BV.LIB" OID="oid.lib"><SHORT-NAME>lib</SHORT-NAME><LONG-NAME>library</LONG-NAME>'
+                    '<CODE-FILE>job.py</CODE-FILE><ENCRYPTION>none</ENCRYPTION><SYNTAX>PYTHON3</SYNTAX><REVISION>1</REVISION>'
+                    '<ENTRYPOINT>init</ENTRYPOINT></LIBRARY>']
+    bv.sub_components = [
+        '<SUB-COMPONENT ID="BV.SUB" OID="oid.sub" SEMANTIC="sensor"><SHORT-NAME>sub1</SHORT-NAME><LONG-NAME>sub component</LONG-NAME>'
+        '<SUB-COMPONENT-PATTERNS><SUB-COMPONENT-PATTERN><MATCHING-PARAMETERS>' + og.matching_parameter("5", "read", out_snref="did") +
+        '</MATCHING-PARAMETERS></SUB-COMPONENT-PATTERN></SUB-COMPONENT-PATTERNS>'
+        '<SUB-COMPONENT-PARAM-CONNECTORS><SUB-COMPONENT-PARAM-CONNECTOR ID="BV.SUB.pc"><SHORT-NAME>pc</SHORT-NAME>'
+        '<DIAG-COMM-SNREF SHORT-NAME="read"/><OUT-PARAM-IF-REFS><OUT-PARAM-IF-SNREF SHORT-NAME="text"/></OUT-PARAM-IF-REFS>'
+        '<IN-PARAM-IF-REFS><IN-PARAM-IF-SNREF SHORT-NAME="did"/></IN-PARAM-IF-REFS></SUB-COMPONENT-PARAM-CONNECTOR>'
+        '</SUB-COMPONENT-PARAM-CONNECTORS>'
+        '<TABLE-ROW-CONNECTORS><TABLE-ROW-CONNECTOR><SHORT-NAME>trc</SHORT-NAME><TABLE-REF ID-REF="T.1"/>'
+        '<TABLE-ROW-SNREF SHORT-NAME="row1"/></TABLE-ROW-CONNECTOR></TABLE-ROW-CONNECTORS>'
+        '<ENV-DATA-CONNECTORS><ENV-DATA-CONNECTOR><SHORT-NAME>edc</SHORT-NAME><ENV-DATA-DESC-REF ID-REF="ED.1"/>'
+        '<ENV-DATA-SNREF SHORT-NAME="env1"/></ENV-DATA-CONNECTOR></ENV-DATA-CONNECTORS>'
+        '<DTC-CONNECTORS><DTC-CONNECTOR><SHORT-NAME>dc</SHORT-NAME><DTC-DOP-REF ID-REF="D.dtc"/><DTC-SNREF SHORT-NAME="P0001"/>'
+        '</DTC-CONNECTOR></DTC-CONNECTORS></SUB-COMPONENT>']
+    bv.layer_sdgs = sdgs.replace("BV.SDGC", "BV.SDGC3")
+    bv.layer_admin = admin
+    bv.tail = (
+        '<DIAG-VARIABLES><DIAG-VARIABLE ID="BV.DV" IS-READ-BEFORE-WRITE="true"><SHORT-NAME>dv1</SHORT-NAME><LONG-NAME>variable</LONG-NAME>'
+        '<VARIABLE-GROUP-REF ID-REF="BV.VG"/><SW-VARIABLES><SW-VARIABLE OID="oid.swv"><SHORT-NAME>swv</SHORT-NAME><ORIGIN>sw &lt;1&gt;</ORIGIN>'
+        '</SW-VARIABLE></SW-VARIABLES><COMM-RELATIONS><COMM-RELATION VALUE-TYPE="CURRENT"><DESC><p>relation</p></DESC>'
+        '<RELATION-TYPE>READ</RELATION-TYPE><DIAG-COMM-SNREF SHORT-NAME="read"/><IN-PARAM-IF-SNREF SHORT-NAME="did"/>'
+        '<OUT-PARAM-IF-SNREF SHORT-NAME="text"/></COMM-RELATION></COMM-RELATIONS></DIAG-VARIABLE></DIAG-VARIABLES>'
+        '<VARIABLE-GROUPS><VARIABLE-GROUP ID="BV.VG"><SHORT-NAME>vg1</SHORT-NAME><LONG-NAME>group</LONG-NAME></VARIABLE-GROUP></VARIABLE-GROUPS>'
+        '<DYN-DEFINED-SPEC><DYN-ID-DEF-MODE-INFOS><DYN-ID-DEF-MODE-INFO><DEF-MODE>BY-IDENTIFIER</DEF-MODE>'
+        '<CLEAR-DYN-DEF-MESSAGE-SNREF SHORT-NAME="clr_dyn"/><READ-DYN-DEF-MESSAGE-SNREF SHORT-NAME="read_dyn"/>'
+        '<DYN-DEF-MESSAGE-SNREF SHORT-NAME="def_dyn"/><SUPPORTED-DYN-IDS><SUPPORTED-DYN-ID>F200</SUPPORTED-DYN-ID>'
+        '<SUPPORTED-DYN-ID>F201</SUPPORTED-DYN-ID></SUPPORTED-DYN-IDS><SELECTION-TABLE-REFS><SELECTION-TABLE-REF ID-REF="T.1"/>'
+        '<SELECTION-TABLE-SNREF SHORT-NAME="table1"/></SELECTION-TABLE-REFS></DYN-ID-DEF-MODE-INFO></DYN-ID-DEF-MODE-INFOS></DYN-DEFINED-SPEC>')
+    bv.patterns = og.base_variant_pattern([og.matching_parameter("7", "read", out_snref="did", base_variant=True, physical=True)])
     bv.import_refs.append(og.ref("IMPORT-REF", "ESD", c2, "CONTAINER"))
     bv.comparam_refs.append(hl.comparam_ref(["cpx", ""], 2))
     bv.parent_refs.append(og.parent_ref("P.id", "PROTOCOL", c1))
